@@ -167,6 +167,36 @@ func scenC01(w *vsim.World, spec *vsim.Spec) {
 		}
 		return nil
 	}
+	// a second client reads and rewrites a block of its own while the first one works, and (in that
+	// mode) every response is read slowly: buffers handed back too early get reused under a response
+	slowReaders = false
+	defer func() { slowReaders = false }()
+	xblock := mkBlock(77, 20+w.Choose("x-size", 60))
+	xhash := md5hex(xblock)
+	xrounds := 0
+	if w.Choose("second-client", 3) != 0 {
+		slowReaders = true
+		xrounds = 1 + w.Choose("x-rounds", 6)
+		plant(vols[0].root, xhash, xblock, t0.Add(-time.Hour))
+		w.Probe("second-client-and-slow-readers")
+	}
+	xdone := xrounds == 0
+	if xrounds > 0 {
+		w.Spawn("client2", func() {
+			for i := 0; i < xrounds && !w.Failed(); i++ {
+				vsim.Yield("op", "client2")
+				resp := node.do("GET", "/"+xhash, "usertoken", nil)
+				if resp.code == 200 && !bytes.Equal(resp.body, xblock) {
+					w.Violation("c01/served-mismatching-data", "client2: GET %s answered 200 with %d bytes whose MD5 is %s", xhash, len(resp.body), md5hex(resp.body))
+					return
+				}
+				if i%2 == 1 {
+					node.do("PUT", "/"+xhash, "usertoken", xblock)
+				}
+			}
+			xdone = true
+		})
+	}
 	done := false
 	w.Spawn("client", func() {
 		for i, r := range plan {
@@ -277,7 +307,7 @@ func scenC01(w *vsim.World, spec *vsim.Spec) {
 	if w.Failed() || w.Truncated() {
 		return
 	}
-	if !done {
+	if !done || !xdone {
 		w.Violation("c01/client-stuck", "%s", strings.Join(w.Blocked(), "; "))
 		return
 	}
